@@ -136,6 +136,10 @@ def check_bottleneck(rep, project):
     rep.analysed(fi)
     D = run.cost_matrix()
     check_nonint(rep, run)
+    # the pairs listed are a matching of *this* graph: row i's partner is a column c with D[i, c] <= distance only if the
+    # graph given to the matching library is the thresholded matrix itself (not its transpose, not a relabelling)
+    from .distances import check_graph
+    check_graph(rep, "MT-GRAPH", run, D)
     appends = [ev for ev in run.events("method-call") if ev["target"] == "append"
                and isinstance(ev["pos"][0], Seq) and len(ev["pos"][0].items) == 3]
     if not appends:
@@ -367,7 +371,7 @@ def run(project: Project, rep, tier: str):
                "arrays of equal length; exact arithmetic")
     check_bottleneck(rep, project)
     check_wasserstein(rep, project)
-    for r, n in (("MT-NONINT", 2), ("MT-COST", 2), ("MT-MINUS1", 4), ("MT-DROP", 2), ("MT-COVER", 2), ("MT-PROV", 1)):
+    for r, n in (("MT-NONINT", 2), ("MT-COST", 2), ("MT-MINUS1", 4), ("MT-DROP", 2), ("MT-COVER", 2), ("MT-PROV", 1), ("MT-GRAPH", 1)):
         rep.floor(r, n)
     for t in ("hopcroftkarp.HopcroftKarp.maximum_matching", "scipy.optimize.linear_sum_assignment", "numpy.zeros",
               "numpy.array"):
